@@ -378,6 +378,20 @@ def find_anchor(text, anchor, where):
     return hits[0]
 
 
+def clone_spec(txt, name, cnt):
+    """R5: `Clone` in the derive list -> external_body `impl Clone` with the trusted spec r == *self"""
+    m = re.search(r"#\[derive\(([^)]*)\)\]", txt)
+    if not m or "Clone" not in [x.strip() for x in m.group(1).split(",")]:
+        raise AnchorLost("clonespec: %s does not derive Clone" % name)
+    have = [x.strip() for x in m.group(1).split(",") if x.strip() != "Clone"]
+    txt = txt[:m.start(1)] + ", ".join(have) + txt[m.end(1):]
+    txt = txt.replace("#[derive()]", "")
+    txt += ("\nimpl Clone for %s {\n    // [trusted] stands for #[derive(Clone)]: the clone is an equal value\n"
+            "    #[verifier::external_body]\n    fn clone(&self) -> (r: Self) ensures r == *self { unimplemented!() }\n}" % name)
+    cnt.add("R5.derive-clone-to-trusted-impl")
+    return txt
+
+
 # --------------------------------------------------------------------------- .vc processing
 class Unit:
     def __init__(self, vc_path):
@@ -416,7 +430,7 @@ class Unit:
                 continue
             parts = ln[3:].split()
             d = parts[0] if parts else ""
-            if d in ("unit", "props", "note"):
+            if d in ("unit", "props", "note", "expect-labels"):
                 i += 1; continue
             if d == "unit-rewrite":
                 self.unit_rewrites.append(_parse_rewrite(ln, self.vc_path, i))
@@ -465,6 +479,8 @@ class Unit:
                 extra = [x for x in add[0].split(",") if x not in have]
                 txt = txt[:m.start(1)] + ", ".join(have + extra) + txt[m.end(1):]
             self.counts.add("R5.derive-added")
+        if "clonespec" in opts:
+            txt = clone_spec(txt, name, self.counts)
         self.emit(txt, name, None, "item", src="%s:%d" % (rel, s.line_of(s.toks[it["kw"]].start)))
         self.counts.add("items.enum")
 
@@ -512,6 +528,8 @@ class Unit:
                 txt = txt[:m.start(1)] + ", ".join(have + extra) + txt[m.end(1):]
             else:
                 txt = "#[derive(%s)]\n" % add[0] + txt
+        if "clonespec" in opts:
+            txt = clone_spec(txt, name, self.counts)
         self.emit(txt, name, None, "item", src="%s:%d" % (rel, s.line_of(s.toks[it["kw"]].start)))
         self.counts.add("items.struct")
 
@@ -548,6 +566,12 @@ class Unit:
             lno, ln = block[k]
             if ln.startswith("//@rewrite"):
                 rewrites.append(_parse_rewrite(ln, self.vc_path, lno - 1)); k += 1; continue
+            if ln.startswith("//@replace-stmts"):
+                m = re.match(r"//@replace-stmts\s+`(.*?)`\s+x(\d+)\s*=>\s*`(.*)`\s*$", ln)
+                if not m:
+                    raise AnchorLost("%s:%d: bad //@replace-stmts" % (self.vc_path, lno))
+                edits.append(("replace", m.group(1), (int(m.group(2)), m.group(3)), lno)); k += 1
+                continue
             if ln.startswith("//@insert"):
                 m = re.match(r"//@insert\s+(before|after|inv)\s+`(.*)`\s*$", ln)
                 if not m:
@@ -576,6 +600,14 @@ class Unit:
                 raise AnchorLost("%s: fn %s: mutself requested but no `&self` receiver" % (rel, path))
             sig = sig2
             self.counts.add("R4.self-to-mut-self")
+        for o in opts:
+            if o.startswith("mutarg="):
+                an = o.split("=", 1)[1]
+                sig2 = re.sub(r"\b%s\s*:\s*&\s*(?!mut\b)" % re.escape(an), "%s: &mut " % an, sig, count=1)
+                if sig2 == sig:
+                    raise AnchorLost("%s: fn %s: mutarg=%s: no `%s: &T` parameter" % (rel, path, an, an))
+                sig = sig2
+                self.counts.add("R4.arg-to-mut-ref")
         if ret:
             # find the top-level `->` of the signature
             stoks = lex(sig)
@@ -614,6 +646,14 @@ class Unit:
                     new_body = apply_literal_rewrite(new_body, frm, to, expect, self.counts, path)
             for (mode, anchor, ins, lno) in edits:
                 a, b = find_anchor(new_body, anchor, "%s (%s:%d)" % (path, os.path.basename(self.vc_path), lno))
+                if mode == "replace":
+                    nst, repl = ins
+                    e = _stmts_end(new_body, a, nst)
+                    self.dropped.append("fn %s: R8 %d statement(s) starting at `%s` replaced by `%s`; dropped text: %s" % (
+                        path, nst, anchor, repl, re.sub(r"\s+", " ", new_body[a:e])[:400]))
+                    new_body = new_body[:a] + repl + new_body[e:]
+                    self.counts.add("R8.stmts-replaced", nst)
+                    continue
                 text = "\n".join(x[1] for x in ins)
                 marker = "\n/*@ghost-begin %d*/\n%s\n/*@ghost-end*/\n" % (lno, text)
                 if mode == "before":
@@ -652,12 +692,21 @@ class Unit:
         body_first_line = s.line_of(toks[it["body_open"]].start)
         ghost = False
         srcno = body_first_line
+        orig_lines = [x.strip() for x in body.split("\n")]
+        cursor = 0
         for bl in new_body.split("\n"):
             if bl.startswith("/*@ghost-begin"):
                 ghost = True; continue
             if bl.startswith("/*@ghost-end*/"):
                 ghost = False; continue
-            self.emit(bl, owner_name, None, "ghost" if ghost else "body", src="%s:~%d" % (rel, srcno))
+            exact = False
+            if not ghost and bl.strip():
+                for q in range(cursor, len(orig_lines)):
+                    if orig_lines[q] == bl.strip():
+                        srcno = body_first_line + q; cursor = q + 1; exact = True
+                        break
+            self.emit(bl, owner_name, None, "ghost" if ghost else "body",
+                      src="%s:%s%d" % (rel, "" if exact else "~", srcno))
         if impl_open:
             self.emit("}", owner_name, None, "glue")
         self.functions.append(dict(path=path, file=rel, line=src_line, external=external, labels=labels,
@@ -667,6 +716,34 @@ class Unit:
             self.diffs[path] = "".join(difflib.unified_diff(
                 (body).splitlines(True), (nb).splitlines(True), "%s:%s (source)" % (rel, path), "extracted", n=0))
         self.counts.add("items.fn")
+
+
+def _stmts_end(text, start, count):
+    """offset just after `count` statements beginning at offset `start`"""
+    toks = [t for t in lex(text) if t.start >= start]
+    code = [t for t in toks if t.kind in CODE]
+    i = 0
+    for _ in range(count):
+        if i >= len(code):
+            raise AnchorLost("replace-stmts: ran out of statements")
+        first = code[i].text
+        blocklike = first in ("match", "if", "for", "while", "loop", "{", "unsafe")
+        depth = 0
+        while i < len(code):
+            t = code[i]
+            if t.kind == "p" and t.text in "([{": depth += 1
+            elif t.kind == "p" and t.text in ")]}":
+                depth -= 1
+                if depth < 0:
+                    raise AnchorLost("replace-stmts: statement runs past the end of its block")
+                if depth == 0 and t.text == "}" and blocklike:
+                    nxt = code[i + 1].text if i + 1 < len(code) else ""
+                    if nxt not in (".", "?", "else", ";"):
+                        i += 1; break
+            elif t.kind == "p" and t.text == ";" and depth == 0:
+                i += 1; break
+            i += 1
+    return code[i - 1].end
 
 
 def _depth_between(toks, off, idx):
